@@ -248,6 +248,27 @@ def binary_one(hz, oracle, t, rng, k, exe):
     return bool(v[0]), bool(ok and v[1]), info
 
 
+def deep_trees(near):
+    """a deeply nested file at the top of the analysed directory and, in a second tree, two directories below it: where a
+    file sits must not decide whether the run survives it (the binary analyses on a thread with a large stack)"""
+    expr = 'x'
+    for _ in range(600):
+        expr = '(x + %s)' % expr
+    dsrc = ('pragma solidity ^0.8.0;\ncontract Deep { uint private total; function f(uint x) public returns (uint) { x++; total += 1; return %s; } }\n' % expr).encode('utf-8')
+    return [F('Deep.sol', dsrc), F('Near.sol', near)], [F('Near.sol', near), D('core', [D('math', [F('Deep.sol', dsrc)])])]
+
+
+def deep_pair_failure(hz, oracle, near, rng, exe):
+    """-> info of the nested run when it fails although the flat run succeeds, else None"""
+    top_tree, nested = deep_trees(near)
+    _, _, info_top = binary_one(hz, oracle, top_tree, rng, 2001, exe)
+    hyp, conforms, info = binary_one(hz, oracle, nested, rng, 2002, exe)
+    if info_top['exit'] == 0 and (info['exit'] != 0 or (hyp and not conforms)):
+        info['note'] = 'the same file at the top level of the analysed directory is analysed without trouble (exit 0)'
+        return info
+    return None
+
+
 def binary_runs(rep, ctx, hz, oracle, pool, rng, n):
     """the real solstat binary, default configuration (all patterns), report compared as a
     multiset of `- file:line` items with the union the specification demands"""
@@ -270,15 +291,8 @@ def binary_runs(rep, ctx, hz, oracle, pool, rng, n):
                  F('README.md', b'# hi')]
         deep_pair = None
         if k == 1:
-            # a deeply nested file at the top of the analysed directory and, in a second run, two directories below it: where a
-            # file sits must not decide whether the run survives it (the binary analyses on a thread with a large stack)
-            expr = 'x'
-            for _ in range(600):
-                expr = '(x + %s)' % expr
-            dsrc = ('pragma solidity ^0.8.0;\ncontract Deep { uint private total; function f(uint x) public returns (uint) { x++; total += 1; return %s; } }\n' % expr).encode('utf-8')
-            top_tree = [F('Deep.sol', dsrc), F('Near.sol', hits[0])]
+            top_tree, t = deep_trees(hits[0])
             _, conforms_top, info_top = binary_one(hz, oracle, top_tree, rng, 1000 + k, exe)
-            t = [F('Near.sol', hits[0]), D('core', [D('math', [F('Deep.sol', dsrc)])])]
             deep_pair = (conforms_top, info_top)
         hyp, conforms, info = binary_one(hz, oracle, t, rng, k, exe)
         done += 1
